@@ -137,4 +137,36 @@ Proof.
   all: try contradiction.
 Qed.
 
+Lemma val_at_app s v i : i < length (pushed s) -> nth_error (pushed s ++ [v]) i = nth_error (pushed s) i.
+Proof. intros. apply nth_error_app1. assumption. Qed.
+
+(* length of the pushed log versus tail.index *)
+Lemma len_pushed s : Inv s -> tix s <= length (pushed s).
+Proof. intros Hi. destruct (ITl _ _ Hi) as (_ & _ & T). cbn zeta in T. destruct (pc (A s 0)); lia. Qed.
+
+Lemma map_add_seq p n : map (fun j => p + j) (seq 0 n) = seq p n.
+Proof.
+  revert p. induction n as [|n IH]; intros p; cbn; [reflexivity|]. rewrite Nat.add_0_r. f_equal.
+  rewrite <- seq_shift, map_map. rewrite <- (IH (S p)). apply map_ext. intros. lia.
+Qed.
+Lemma nodup_app {X} (l1 l2 : list X) : NoDup l1 -> NoDup l2 -> (forall x, In x l1 -> ~ In x l2) -> NoDup (l1 ++ l2).
+Proof.
+  induction l1 as [|y l1 IH]; cbn; intros H1 H2 H3; [assumption|]. inversion H1; subst. constructor.
+  - intro Q. apply in_app_or in Q. destruct Q; [contradiction|]. apply (H3 y); auto.
+  - apply IH; auto.
+Qed.
+Definition gidx (g : nat * nat * option nat) : nat := snd (fst g).
+
+Lemma lock_knows s a : Inv s -> lockpc B (A s a) = true -> lock_ok s (A s a).
+Proof.
+  intros Hi H. pose proof (IAc _ _ Hi a) as Ha. unfold ainv in Ha. unfold lockpc in H.
+  destruct (pc (A s a)) eqn:E; try discriminate; destruct Ha as (_ & _ & _ & Ha).
+  - rewrite H in Ha. tauto.
+  - tauto.
+  - tauto.
+  - tauto.
+  - tauto.
+  - tauto.
+Qed.
+
 End S.
